@@ -221,10 +221,11 @@ def ob_cmdline_file(n):
         try:
             A = 'a =#\n[%:;\t'
             v1 = sym_str(n, 'value', alphabet=A)
-            keys = [K('opt'), K('o2', subproject='sub'), K('o3', machine=__import__('mesonbuild.mesonlib', fromlist=['MachineChoice']).MachineChoice.BUILD)]
-            o = argparse.Namespace(cmd_line_options={keys[0]: v1, keys[1]: 'x', keys[2]: 'y'}, cross_file=['c.ini'], native_file=[])
+            BUILD = __import__('mesonbuild.mesonlib', fromlist=['MachineChoice']).MachineChoice.BUILD
+            keys = [K('opt'), K('o2', subproject='sub'), K('o3', machine=BUILD), K('o4', subproject='sub', machine=BUILD), K('o5', subproject='', machine=BUILD)]      # sub:build.o4, :build.o5
+            o = argparse.Namespace(cmd_line_options={keys[0]: v1, keys[1]: 'x', keys[2]: 'y', keys[3]: 'z', keys[4]: 'w'}, cross_file=['c.ini'], native_file=[])
             CL.write_cmd_line_file('/b', o)
-            exp = {keys[0]: v1, keys[1]: 'x', keys[2]: 'y'}
+            exp = {keys[0]: v1, keys[1]: 'x', keys[2]: 'y', keys[3]: 'z', keys[4]: 'w'}
             upd = choose(3, 'update')
             if upd == 1:
                 v2 = sym_str(n, 'value2', alphabet=A)
